@@ -10,13 +10,13 @@ def configs(tier):
     cfgs = []
     if tier == 'quick':
         for dt in QUICK_DTYPES:
-            for trail in ([], [2]):
+            for trail in ([], [2, 3] if dt in ('>i2', '<c8') else [2]):
                 for n0 in (0, 2):
                     cfgs.append({'dtype': dt, 'trail': trail, 'start_len': n0, 'Lmax': 3,
                                  'oracles': ['model']})
     else:
         for dt in payload.ALL_DTYPES:
-            for trail in ([], [2], [2, 1]):
+            for trail in ([], [2], [2, 3]):
                 for n0 in (0, 2):
                     cfgs.append({'dtype': dt, 'trail': trail, 'start_len': n0, 'Lmax': 3,
                                  'oracles': ['model']})
